@@ -27,15 +27,15 @@ Proof. destruct a, b; simpl; split; intros H; try reflexivity; try discriminate.
 
 Lemma conv_eqb_eq a b : conv_eqb a b = true <-> a = b.
 Proof.
-  destruct a as [|r c|r c|n i p], b as [|r' c'|r' c'|n' i' p']; simpl; split; intros H;
+  destruct a as [|r c|r c|n i p sq], b as [|r' c'|r' c'|n' i' p' sq']; simpl; split; intros H;
     try reflexivity; try discriminate.
   - apply andb_true_iff in H as [H1 H2]. apply Nat.eqb_eq in H1, H2. congruence.
   - inversion H; subst. rewrite !Nat.eqb_refl. reflexivity.
   - apply andb_true_iff in H as [H1 H2]. apply Nat.eqb_eq in H1, H2. congruence.
   - inversion H; subst. rewrite !Nat.eqb_refl. reflexivity.
-  - apply andb_true_iff in H as [H12 H3]. apply andb_true_iff in H12 as [H1 H2].
-    apply Nat.eqb_eq in H1. apply natll_eqb_eq in H2. apply proj_eqb_eq in H3. congruence.
-  - inversion H; subst. rewrite Nat.eqb_refl. simpl.
+  - apply andb_true_iff in H as [H123 H4]. apply andb_true_iff in H123 as [H12 H3]. apply andb_true_iff in H12 as [H1 H2].
+    apply Nat.eqb_eq in H1. apply natll_eqb_eq in H2. apply proj_eqb_eq in H3. apply Bool.eqb_prop in H4. congruence.
+  - inversion H; subst. rewrite Nat.eqb_refl, Bool.eqb_reflx, andb_true_r. simpl.
     apply andb_true_iff; split; [apply natll_eqb_eq | apply proj_eqb_eq]; reflexivity.
 Qed.
 
@@ -419,7 +419,7 @@ Theorem gradient_guard q gf rg dg d w dp wp out :
   has_gradient_func gf = true /\ gi_samples d = false /\ gi_samples w = false /\ identity_class (g_cls rg) = true /\ (has_grad dg = true \/ identity_class (g_cls dg) = true).
 Proof.
   unfold gradient. intros H.
-  destruct (if gi_samples w then Ok (mkP2 [] None false) else two_par q dg (gi_vec w) (gi_tag w) wp) as [wpar|e];
+  destruct (if gi_samples w then Ok (mkP2 [] None false) else two_par q dg (gi_vec w) (gi_tag_par q w) wp) as [wpar|e];
     cbn [bind] in H; [|discriminate].
   assert (G : gf <> GNone) by (intros ->; discriminate).
   destruct (gi_samples d) eqn:Sd; [destruct gf; discriminate|].
@@ -432,8 +432,8 @@ Proof.
   { destruct gf as [| | | | |gw jw]; try reflexivity; try congruence.
     destruct gw as [[g sel]|], jw as [[[n J] jt]|]; try reflexivity.
     exfalso.
-    destruct (two_fun q dg (gi_vec w) (gi_tag w) wp); cbn [bind] in H; [|discriminate].
-    destruct (two_fun q rg (gi_vec d) (gi_tag d) dp); cbn [bind] in H; discriminate. }
+    destruct (two_fun q dg (gi_vec w) (gi_tag_fun q w) wp); cbn [bind] in H; [|discriminate].
+    destruct (two_fun q rg (gi_vec d) (gi_tag_fun q d) dp); cbn [bind] in H; discriminate. }
   repeat split; try assumption; try reflexivity.
   destruct (has_grad dg); [left; reflexivity|]. destruct (identity_class (g_cls dg)); [right; reflexivity|discriminate].
 Qed.
@@ -468,7 +468,7 @@ Lemma gradient_plain q gf rg dg d w :
     | None => rmap (fun v => OutVec v (g_f2p_0d dg)) (g_fun2par_gen dg (snd (fst gfl)) (fst (fst gfl)))
     end))).
 Proof.
-  intros Hg Hr Hd. unfold gradient. cbn [gi_samples gi_vec gi_tag gi_is_arr orb].
+  intros Hg Hr Hd. unfold gradient. cbn [gi_samples gi_vec gi_tag gi_tag_par gi_tag_fun gi_is_arr orb].
   unfold two_par, two_par_gen at 1. cbn [bind p_v p_tag].
   rewrite Hr. cbn [negb].
   assert (Hd' : negb (has_grad dg) && negb (identity_class (g_cls dg)) = false).
@@ -480,7 +480,7 @@ Proof.
   destruct (g_par2fun_gen dg false w) as [wf|e]; cbn [bind rmap fst snd]; [|reflexivity].
   destruct (g_par2fun_gen rg false d) as [df|e]; cbn [bind rmap fst snd]; [|reflexivity].
   destruct (run_gfun gf (fun_is_2d rg) df wf) as [[[gv flat] sel]|e]; cbn [bind fst snd]; [|reflexivity].
-  rewrite pick_none. destruct (g_grad dg) as [gg|].
+  rewrite if_same, pick_none. destruct (g_grad dg) as [gg|].
   - rewrite pick_none. unfold two_par_gen. cbn [rmap]. reflexivity.
   - unfold two_par_gen. rewrite rmap_rmap. reflexivity.
 Qed.
@@ -573,7 +573,7 @@ Theorem gradient_wrt_array_agrees q gf rg dg d (ap : bool) x w wpflag :
 Proof.
   intros Hg Hr Hd Hw Hf Hleak.
   rewrite (gradient_plain q gf rg dg d w Hg Hr Hd).
-  unfold gradient. cbn [gi_samples gi_vec gi_tag gi_is_arr orb].
+  unfold gradient. cbn [gi_samples gi_vec gi_tag gi_tag_par gi_tag_fun gi_is_arr orb].
   unfold two_par, two_par_gen at 1. rewrite geo_eq_refl. cbn [bind].
   assert (Ewp : (if ap then Ok (mkP2 x (Some (dg, true)) false)
                  else rmap (fun v => mkP2 v (Some (dg, true)) (g_f2p_0d dg)) (g_fun2par_gen dg false x))
@@ -600,14 +600,14 @@ Proof.
                 rmap (fun a => out_cols (wrap_out false dg a)) (two_par_gen q dg flat (ggrad_apply gg gv w) t true)
                 = Ok [ggrad_apply gg gv w]).
     { intros t [-> | ->]; unfold two_par_gen; [reflexivity|]. rewrite geo_eq_refl. reflexivity. }
-    apply T. destruct sel, (ggrad_sel gg); cbn in Hleak |- *; try discriminate; auto.
+    apply T. destruct (q_tagleak q), sel, (ggrad_sel gg); cbn in Hleak |- *; try discriminate; auto.
   - unfold out_values. rewrite !rmap_rmap.
     assert (T : forall t, t = None \/ t = Some (dg, false) ->
                 rmap (fun a => out_cols (wrap_out false dg a)) (two_par_gen q dg flat gv t false)
                 = rmap (fun a => out_cols (OutVec a (g_f2p_0d dg))) (g_fun2par_gen dg flat gv)).
     { intros t [-> | ->]; unfold two_par_gen; [rewrite rmap_rmap; reflexivity|].
       rewrite geo_eq_refl. cbn [bind]. rewrite rmap_rmap. reflexivity. }
-    apply T. destruct sel; cbn; auto.
+    apply T. destruct (q_tagleak q), sel; cbn; auto.
 Qed.
 
 (* ------------------------------------------------------------------------------------------ *)
@@ -620,7 +620,7 @@ Definition lin (A : list (list Z)) : fwd := mkFwd (fun x => qmatvec (map zq A) x
 Definition g_default1d (n : nat) : geo := mkGeo KDefault1D n n CvId None F2Base None 0.
 Definition g_discrete (n : nat) : geo := mkGeo KDiscrete n n CvId None F2Base None 0.
 Definition g_step (nodes : nat) (idx : list (list nat)) (pj : proj) : geo :=
-  mkGeo KStep (length idx) nodes (CvStep nodes idx pj) None F2Base None 0.
+  mkGeo KStep (length idx) nodes (CvStep nodes idx pj true) None F2Base None 0.
 (* MappedGeometry(Continuous1D(n), map = c0 + c1 x + ..., imap) with optional gradient *)
 Definition g_mapped (n : nat) (cs : list Z) (f : f2p) (gr : option ggrad) : geo :=
   mkGeo KMapped n n CvId (Some (zq cs)) f gr 0.
@@ -679,7 +679,7 @@ Lemma witness_tagleak :
   check_out (gradient q_today w5_gf (g_default1d 2) w5_dg (GiVec w5_d) (GiArr w5_dg true w5_w) true true)
             (ObsVal 1 [[11#2; 19#2; -85#2]]) = true /\
   check_out (gradient q_fixed w5_gf (g_default1d 2) w5_dg (GiVec w5_d) (GiArr w5_dg true w5_w) true true)
-            (ObsVal 1 [[11#2; 19#2; -85#2]]) = true.
+            (ObsVal 1 [[12#1; 20#1; -84#1]]) = true.
 Proof. vm_compute. repeat split; reflexivity. Qed.
 
 (* non-vacuity: a mapped domain geometry with gradient, plain range; the hypotheses of the agreement
